@@ -79,8 +79,9 @@
                    C04_cycle_search_iff) the number of levels is at most the sum of the depths of
                    the operation and the fragments, hence at most [default_fuel D], the value the
                    check evaluates; with a cycle such as F on O { o { ...F } } no n works.
-                   [C01_doc_ok_intro] packages this: an n-free invariant Q plus a terminating
-                   level count give [doc_ok] with n = levels + 1.
+                   [C01_doc_ok_acyclic] packages this: acyclicity (5.5.2.2:
+                   C04_spreads_silent_acyclic, to be transported to [acyclic_frags]) plus an
+                   n-free invariant Q give [doc_ok] with n = [default_fuel D].
         Not needed from validation at all: 5.2.x beyond the root type, 5.3.2 (field merging: the
         executor merges whatever it is given), 5.4 / 5.6 for field arguments, 5.5.2.x, 5.8 beyond
         what (b) uses.
@@ -105,7 +106,7 @@ From ApiFu Require Val.Values.
 From ApiFu Require Import Base.Sexp ExeA.ArgData ExeA.ArgArgs ExeA.ArgModel ExeA.ArgSpec ExeA.ArgHyps
      ExeA.ArgBaseProofs ExeA.ArgSpecProofs ExeA.ArgCacheProofs ExeA.ArgProofs
      ExeA.ArgOrderProofs ExeA.ArgShapeProofs ExeA.ArgFuelProofs ExeA.ArgVisibleProofs ExeA.ArgRequestProofs
-     ExeA.ArgKeyOrder ExeA.ArgKeyOrderProofs ExeA.ArgLevelProofs.
+     ExeA.ArgKeyOrder ExeA.ArgKeyOrderProofs ExeA.ArgLevelProofs ExeA.ArgAcyclicProofs.
 Import ListNotations.
 
 (** The executor finishes: no panic, fragment expansion never runs out of fuel. *)
@@ -324,10 +325,14 @@ Proof. exact doc_ok_mono. Qed.
     invariant Q of (object type, selection list) — it guarantees collection and the local
     conditions [group_local] and is inherited by the merged sub-selections — gives [doc_ok] with
     n = levels + 1.  C04 supplies Q ("validated selection set for parent type ot"), [conds_ok],
-    the root type, and — from C04_spreads_silent_acyclic — the termination of [levels]; that last
-    implication (no fragment reaches itself => [levels (length (frags D)) _ = Some _], and the
-    value is at most [default_fuel D]) is NOT proved here; the check evaluates it per case
-    (never violated on a validated document; undefined only for the hostile stream's cyclic fragments). *)
+    the root type, and acyclicity; round 7 proves the rest: when no fragment reaches itself
+    ([acyclic_frags D]: no defined fragment occurs in a path of the spread graph — [chain] — that
+    starts in its own body; the form of C04_spreads_silent_acyclic on this encoding) such a path
+    has pairwise distinct defined fragments, hence at most [length (frags D)] of them
+    (pigeonhole, [C01_chain_short]); the expansion of [levels] spends one unit of fuel per step
+    of a path and every step adds at most [doc_depth D] levels, so [levels] terminates with a
+    value below [default_fuel D] ([C01_acyclic_levels]) and [doc_ok] holds with the very bound
+    the check evaluates ([C01_doc_ok_acyclic]). *)
 Theorem C01_levels_sound : forall D k sels n, levels D k sels = Some n -> lv D sels n.
 Proof. exact levels_sound. Qed.
 
@@ -345,6 +350,31 @@ Theorem C01_doc_ok_intro : forall S D E fuel (Q : name -> list selection -> Prop
   levels D k (op_sels D) = Some n ->
   doc_ok S D E fuel (Datatypes.S n) = true.
 Proof. exact doc_ok_intro. Qed.
+
+(** round 7: the pigeonhole — in a document without fragment cycles a path of the spread graph is
+    no longer than the number of fragment definitions ... *)
+Theorem C01_chain_short : forall D sels l,
+  acyclic_frags D -> chain D sels l -> (length l <= length (frags D))%nat.
+Proof. exact chain_short. Qed.
+
+(** ... so the level count terminates, below [default_fuel D], for every selection list no deeper
+    than the document ... *)
+Theorem C01_acyclic_levels : forall D sels,
+  acyclic_frags D -> (sels_depth sels <= doc_depth D)%nat ->
+  exists n, levels D (Datatypes.S (length (frags D))) sels = Some n /\ (Datatypes.S n <= default_fuel D)%nat.
+Proof. exact acyclic_levels. Qed.
+
+(** ... and [doc_ok] holds with the bound the check evaluates, given from validation only
+    acyclicity, [conds_ok], the root type and the n-free invariant Q. *)
+Theorem C01_doc_ok_acyclic : forall S D E fuel (Q : name -> list selection -> Prop) rt,
+  acyclic_frags D ->
+  conds_ok S D E = true ->
+  s_root_type S (op_kind D) = Some rt ->
+  (forall ot sels, Q ot sels ->
+     exists groups, s_collect S D E fuel ot sels = Some groups /\ Forall (group_local S D Q ot) groups) ->
+  Q rt (op_sels D) ->
+  doc_ok S D E fuel (default_fuel D) = true.
+Proof. exact doc_ok_acyclic. Qed.
 
 (** ... and depth + 1 levels are not enough in general *)
 Theorem C01_level_bound_depth_plus_one_refuted :
@@ -425,6 +455,9 @@ Print Assumptions C01_doc_ok_mono.
 Print Assumptions C01_levels_sound.
 Print Assumptions C01_collected_nodes_are_one_level_lower.
 Print Assumptions C01_doc_ok_intro.
+Print Assumptions C01_chain_short.
+Print Assumptions C01_acyclic_levels.
+Print Assumptions C01_doc_ok_acyclic.
 Print Assumptions C01_level_bound_depth_plus_one_refuted.
 Print Assumptions C01_collect_fuel_sufficient.
 Print Assumptions C01_spec_selection_set_wf.
